@@ -83,7 +83,9 @@ def run(ck):
     rng = ck.rng
     names = gen.SMALL + ["re3", "fcc"] + ([] if ck.quick else ["bcc", "hcp", "diamond", "tet", "ortho", "hcp-nonideal"])
     n = 0; exact_cases = []
-    for label, crys, chem in gen.pool(rng, ck.n(8, 36), names=names, random_frac=0.3, nchem_max=2, maxatoms=2):
+    # crystals with a non-empty site vector basis first (origin-state terms of Lij: L1vv = 0 and Lsv = -L0vv must hold in every component)
+    forced = [(nm,) + gen.named(nm) for nm in (["rect-polar2d", "oblique2d", "tria-disp"] if ck.quick else ["rect-polar2d", "oblique2d", "tria-disp", "polar3w2d", "pg4", "polar"])]
+    for label, crys, chem in forced + list(gen.pool(rng, ck.n(8, 36), names=names, random_frac=0.3, nchem_max=2, maxatoms=2)):
         try:
             net = gen.percolating_network(crys, chem, rng, maxshell=2, maxjumps=40)
         except Exception:
@@ -92,6 +94,7 @@ def run(ck):
         cut, sl, jn = net
         Nth = 2 if (crys.dim == 2 and rng.random() < 0.4) else 1
         d = vm.make(crys, chem, sl, jn, Nth)
+        first = None
         for rep in range(ck.n(2, 3)):
             Nw = len(sl); nj = len(jn)
             th = dict(preV=np.array([rng.uniform(.5, 2) for _ in range(Nw)]), eneV=np.array([rng.uniform(0, .6) for _ in range(Nw)]),
@@ -115,6 +118,7 @@ def run(ck):
             except Exception as e:
                 ck.violation("Lij raised %r" % e, doc, key="c06-raise"); continue
             n += 1
+            if first is None: first = (kT, {k: np.array(v, copy=True) for k, v in th.items()}, [L0vv, Lss, Lsv, L1vv], doc)
             scale = np.abs(L0vv).max()
             e1 = np.abs(Lsv + L0vv).max() / scale; e2 = np.abs(L1vv).max() / scale
             lo = tcommon.min_eig(Lss) / scale; hi = tcommon.min_eig(L0vv - Lss) / scale
@@ -129,15 +133,33 @@ def run(ck):
             M = vm.min_torus(d)
             if d.N * d.N * M ** crys.dim <= (700 if ck.quick else 2600):
                 I = vm.inject(d, d.preene2betafree(kT, **th), M)
-                Q, npolar = polar_projector(d)
-                i1 = np.abs(Q @ (I[2] + I[0]) @ Q).max() / scale; i2 = np.abs(Q @ I[3] @ Q).max() / scale
-                ip = max(np.abs(I[2] + I[0]).max(), np.abs(I[3]).max()) / scale
+                # all components, also in the span of a site vector basis (valid under injection since fix b4a4433)
+                i1 = np.abs(I[2] + I[0]).max() / scale; i2 = np.abs(I[3]).max() / scale
                 ck.case(key=("inj", label, round(cut, 5), Nth, [np.asarray(v).round(10).tolist() for v in th.values()], kT), nontrivial=True,
                         kind="injected:%dD-N%d" % (crys.dim, d.N))
                 if i1 > 1e-9: ck.violation("tracer (exact torus GF): Lsv != -L0vv (%.3g relative)" % i1, doc, key="c06-Lsv")
                 if i2 > 1e-9: ck.violation("tracer (exact torus GF): L1vv != 0 (%.3g relative)" % i2, doc, key="c06-L1vv")
-                # (components in the span of a site vector basis are compared with the real Green function only: the torus
-                #  pseudo-inverse differs from the lattice Green function by a constant to which the origin-state terms are sensitive)
+        # the first data set again, after the others were evaluated on the same calculator (Green-function cache hit): everything
+        # Lij uses for input A must come from A's own cache entry - same tensors, identities still hold
+        if first is not None and n > 0:
+            kT0, th0, L0, doc0 = first
+            try:
+                d.clearcache()    # (vm.inject empties the cache: build the history A, B, A explicitly)
+                L0 = [np.array(x) for x in d.Lij(*d.preene2betafree(kT0, **th0))]
+                thB = dict(preV=np.array([rng.uniform(.5, 2) for _ in sl]), eneV=np.array([rng.uniform(0, .6) for _ in sl]),
+                           preT0=np.array([rng.uniform(.5, 2) for _ in jn]), eneT0=np.array([rng.uniform(.6, 1.4) for _ in jn]))
+                thB.update(d.maketracerpreene(**thB))
+                d.Lij(*d.preene2betafree(kT0, **thB))
+                again = [np.array(x) for x in d.Lij(*d.preene2betafree(kT0, **th0))]
+            except Exception as e:
+                ck.violation("Lij raised %r on re-evaluation" % e, doc0, key="c06-raise"); again = None
+            if again is not None:
+                sc0 = np.abs(L0[0]).max()
+                eh = max(np.abs(a - b).max() for a, b in zip(again, L0)) / sc0
+                ck.case(key=("again", label, round(cut, 5), Nth), nontrivial=True, kind="re-evaluated-after-other-data")
+                if eh > 1e-10:
+                    ck.violation("tracer data evaluated again after other data sets on the same calculator gives different tensors (%.3g relative; "
+                                 "L1vv/L0vv now %.3g)" % (eh, np.abs(again[3]).max() / sc0), dict(doc0, again=[x.tolist() for x in again]), key="c06-reevaluation")
     # (b) exact tier: tracer data, dyadic, 1-site 2-D crystals
     for rep in range(ck.n(2, 6)):
         nm = ["square", "rect", "tria"][rep % 3]
